@@ -30,9 +30,11 @@ def _process_many(*args, connectable, zip, combine):
                 if i == n-1:
                     observer.on_next(x)
                     if zip is True or combine is True:
+                        # reset the join state of all branches for this key
                         base_index = x.key[0] * n
-                        queue[base_index+i] = None
-                        has_next[base_index+i] = False
+                        for index in range(n):
+                            queue[base_index+index] = None
+                            has_next[base_index+index] = False
                 return
 
             elif not isinstance(x, rs.OnNextMux):
